@@ -71,7 +71,8 @@ def weight_of(t: Term) -> bool:
 
 
 def weight_mentions(t: Term, a: Term, b: Term) -> bool:
-    return contains(t, a) and contains(t, b)
+    from .schema import weight_names_pair
+    return weight_names_pair(t, a, b)
 
 
 def split_candidate(v: Term, hp: Term, kind: str) -> Optional[Term]:
